@@ -140,6 +140,9 @@ type actxRun struct {
 	// global facts: state of every context field at each call site of a package function
 	sites map[*types.Func][]actxSite
 	inl   []actxInl // calls being interpreted (outermost first)
+	// results of interpreted leaf setters that hand back a saved entry value
+	// (`old := self.enterLoop()`): call → per result index, the save it returns
+	rets map[*ast.CallExpr]map[int]actxLocal
 }
 
 type actxInl struct {
@@ -649,6 +652,42 @@ func (r *actxRun) inline(fn *types.Func, st *actxState, g *types.Func, c *ast.Ca
 	st.vals = res
 	st.stash = exits[0].st.stash
 	st.compFail = exits[0].st.compFail
+	// saves handed back as results (explicit `return a, b` or named results)
+	e0 := exits[0]
+	var results []ast.Expr
+	if e0.o.ret != nil && len(e0.o.ret.Results) > 0 {
+		results = e0.o.ret.Results
+	} else if fd.Type.Results != nil {
+		for _, fl := range fd.Type.Results.List {
+			for _, nm := range fl.Names {
+				results = append(results, nm)
+			}
+		}
+	}
+	for i, re := range results {
+		var l actxLocal
+		var ok bool
+		if id, isId := ast.Unparen(re).(*ast.Ident); isId {
+			obj := m.info.Uses[id]
+			if obj == nil {
+				obj = m.info.Defs[id]
+			}
+			l, ok = e0.st.locals[obj]
+			ok = ok && l.kind == alSave
+		} else if f, _ := m.fieldOf(re); f != nil && m.ctx[f] != nil {
+			// `return x.F` before F is written: the entry value itself
+			l, ok = actxLocal{kind: alSave, f: f, snap: r.snapshot(e0.st)}, true
+		}
+		if ok {
+			if r.rets == nil {
+				r.rets = map[*ast.CallExpr]map[int]actxLocal{}
+			}
+			if r.rets[c] == nil {
+				r.rets[c] = map[int]actxLocal{}
+			}
+			r.rets[c][i] = l
+		}
+	}
 }
 
 // localOf resolves an argument / rhs to a tracked local (x, *p).
@@ -698,6 +737,16 @@ func (r *actxRun) stmt(fn *types.Func, st *actxState, s ast.Stmt) {
 				delete(st.locals, obj)
 				if st.closures != nil {
 					delete(st.closures, obj)
+				}
+				if len(x.Rhs) == 1 {
+					// a, b := g(…) / a := g(…) with g an interpreted setter that hands back what it saved
+					if ce, isCall := ast.Unparen(x.Rhs[0]).(*ast.CallExpr); isCall && r.rets[ce] != nil {
+						if l, ok := r.rets[ce][i]; ok {
+							st.locals[obj] = l
+							delete(st.savedDep, l.f)
+							continue
+						}
+					}
 				}
 				if len(x.Rhs) != len(x.Lhs) {
 					continue
